@@ -243,7 +243,8 @@ impl<'i> SmlParseTlf<'i> for List<'i> {
     }
 
     fn parse_with_tlf(mut input: &'i [u8], tlf: &TypeLengthField) -> ResTy<'i, Self> {
-        let mut v = Vec::with_capacity(tlf.len as usize);
+        // the declared length is untrusted: never reserve more entries than input bytes remain
+        let mut v = Vec::with_capacity((tlf.len as usize).min(input.len()));
         for _ in 0..tlf.len {
             let (new_input, x) = ListEntry::parse(input)?;
             v.push(x);
